@@ -91,6 +91,21 @@ Theorem C06_B5_for_step_order_fixed : refs_deviates MRefs w_B5_for_step_order [9
 Proof. vm_compute. reflexivity. Qed.
 Print Assumptions C06_B5_for_step_order_fixed.
 
+(* a.lua: local c = 5\nlocal d = 1, 2, c\nuse(d)\n *)
+Definition w_local_surplus : list (list N * list N) :=
+  [([97; 46; 108; 117; 97], [108; 111; 99; 97; 108; 32; 99; 32; 61; 32; 53; 10; 108; 111; 99; 97; 108; 32; 100; 32; 61; 32; 49; 44; 32; 50; 44; 32; 99; 10; 117; 115; 101; 40; 100; 41; 10])].
+(* unvisited_local_surplus, FIXED (fixes/C20-local-surplus.diff): cgLocalVarDeclStat left its expression loop (`break`)
+   after the FIRST initialiser beyond the names of `local a = 1, 2, <here>, <and here>`: the later ones were never
+   analysed by any pass - their closures got no scope, the names read there no reference.  `before_surplus` = the code
+   of /repo before that repair; the witness deviates there and no longer for the code now in /repo. *)
+(* find-references on the declaration of c (line 0, column 6) missed the read in the third value *)
+Theorem C06_local_surplus_refuted_before_fix : refs_deviates_fx before_surplus w_local_surplus MRefs [97; 46; 108; 117; 97] 0 6 = true.
+Proof. vm_compute. reflexivity. Qed.
+Print Assumptions C06_local_surplus_refuted_before_fix.
+Theorem C06_local_surplus_fixed : all_in_fragment w_local_surplus = true /\ refs_deviates MRefs w_local_surplus [97; 46; 108; 117; 97] 0 6 = false.
+Proof. vm_compute. split; reflexivity. Qed.
+Print Assumptions C06_local_surplus_fixed.
+
 (* a.lua: local x = 1\nreturn x *)
 Definition w_doc_end : list (list N * list N) :=
   [([97; 46; 108; 117; 97], [108; 111; 99; 97; 108; 32; 120; 32; 61; 32; 49; 10; 114; 101; 116; 117; 114; 110; 32; 120])].
@@ -192,8 +207,9 @@ Proof. vm_compute. repeat split; reflexivity. Qed.
 
 (* ================================================================== positive theorems (agent traverse-bind)
    The traversal resolver IS Lua's binder outside the refuted classes.  Guards (all boolean, computed from the chunk):
-     tb_shape P        : list lengths of parser output (SIf one block per condition; SLocal one Loc per name and no more
-                         initialisers than names) - NO fragment restriction: tables, indexing, methods, goto are covered;
+     tb_shape P        : list lengths of parser output (SIf one block per condition; SLocal one Loc per name; ANY number
+                         of initialisers since fixes/C20-local-surplus.diff: the former "no more initialisers than
+                         names" is gone) - NO fragment restriction: tables, indexing, methods, goto are covered;
      tr_clean P n      : replaying the traversal, IsCorrectPosition accepts the newest same-named variable at every
                          look-up of n (the Loc test agrees with program order for n; fails exactly on class B4 and on
                          the C04 column-restart layouts);
